@@ -832,6 +832,82 @@ func runC12(c *core.Ctx) core.Meta {
 	// ---------------- R12.14 a command's task is closed before its waiters are released ----------------
 	checkTraceAfterRelease(c, pd, "R12.14")
 
+	// ---------------- R12.20 a buffer is clean when the flush has returned, not when it is requested ----------------
+	st20 := c.Rule("R12.20", "the driver's dirty marks are set when a kernel is launched and tell a later copy to flush first. A mark may be cleared only by what follows the return of a flush (a function reached from processFlushReturn only): no function that a command-processing function (process...Command), an Enqueue* method or an exported API reaches stores l2Dirty = false on an existing buffer or context. Clearing the marks when a flush is requested erases the mark of a kernel of another queue that is still running; the copy that follows that kernel sends no flush and reads memory while the kernel's results are in the L2", 1)
+	{
+		callers := map[*ssa.Function][]*ssa.Function{}
+		for _, fn := range pd.Funcs {
+			for _, b := range fn.Blocks {
+				for _, in := range b.Instrs {
+					if cc := core.CallOf(in); cc != nil {
+						if cal := cc.StaticCallee(); cal != nil && cal.Pkg == pd.Pkg {
+							callers[cal] = append(callers[cal], fn)
+						}
+					}
+				}
+			}
+		}
+		dirtyStores := 0
+		pd.Instrs(func(fn *ssa.Function, in ssa.Instruction) {
+			sto, ok := in.(*ssa.Store)
+			if !ok {
+				return
+			}
+			f := core.FieldOfAddr(sto.Addr)
+			if f == nil || f.Name() != "l2Dirty" {
+				return
+			}
+			k, isC := sto.Val.(*ssa.Const)
+			if !isC || k.Value == nil {
+				return
+			}
+			if constant.BoolVal(k.Value) {
+				dirtyStores++
+				return
+			}
+			// a fresh object (composite literal of a new buffer) is clean by construction
+			if fa, ok := sto.Addr.(*ssa.FieldAddr); ok {
+				if _, fresh := fa.X.(*ssa.Alloc); fresh {
+					return
+				}
+			}
+			st20.Instances++
+			c.MarkAnalysed(fn)
+			// who reaches this function?
+			seen := map[*ssa.Function]bool{}
+			var bad *ssa.Function
+			var up func(g *ssa.Function)
+			up = func(g *ssa.Function) {
+				if seen[g] || bad != nil {
+					return
+				}
+				seen[g] = true
+				name := g.Name()
+				if strings.Contains(name, "FlushReturn") || strings.Contains(name, "FlushRsp") {
+					return // the flush has returned
+				}
+				if (strings.HasPrefix(name, "process") && strings.HasSuffix(name, "Command")) || strings.HasPrefix(name, "Enqueue") || (g.Object() != nil && g.Object().Exported() && g != fn) {
+					bad = g
+					return
+				}
+				for _, cl := range callers[g] {
+					up(cl)
+				}
+			}
+			up(fn)
+			st20.Ob(bad == nil)
+			st20.Sample("%s clears a dirty mark; reached from command processing: %v", core.FuncName(fn), bad != nil)
+			if bad != nil {
+				c.ReportAt("R12.20", fn, in.Pos(), "dirty-mark-cleared-at-request:"+core.FuncName(fn), core.FuncName(fn)+" clears l2Dirty and is reached from "+core.FuncName(bad)+", which runs when a command is processed, not when a flush has returned: the marks of kernels that are still in flight on other queues are erased, and the copy that follows such a kernel in its queue reads memory without a flush")
+			}
+		})
+		st20.Instances += dirtyStores
+		for i := 0; i < dirtyStores; i++ {
+			st20.Ob(true)
+		}
+		st20.Sample("stores that set a dirty mark (the matcher's positive example): %d", dirtyStores)
+	}
+
 	// ---------------- R12.19 progress of every context counts ----------------
 	st19 := c.Rule("R12.19", "the driver keeps ticking while any context made progress: where a function with a bool result collects its answer in a loop (processNewCommand over the contexts, the queue loops below it), the value carried around the loop is derived from itself on the back edge (p = step() || p), so that an earlier iteration's progress is not forgotten. With p = step(), a command started from an older context while the newer ones are idle is reported as no progress: the driver sleeps with the command's requests unsent and the wait on its queue never returns", 2)
 	checkProgressAccumulated(c, st19, "R12.19", pd, "A command that an older context started is not continued: the engine runs dry and DrainCommandQueue never returns")
@@ -867,64 +943,7 @@ func runC12(c *core.Ctx) core.Meta {
 	})
 
 	// ---------------- R12.15 host data is touched when the command runs, not when it is enqueued ----------------
-	st15 := c.Rule("R12.15", "a copy command reads its host source and writes its host destination when it is processed at the head of its queue (simulation side), not when it is enqueued: no function that an exported Enqueue* method of the driver reaches by static calls inside the package encodes or decodes host data (encoding/binary.Write / Read). A source serialised at enqueue time misses what earlier commands of the same queue write into that host buffer (EnqueueMemCopyD2D stages its tail bytes through one: D2H into tmp, then H2D from tmp)", 3)
-	{
-		reach := map[*ssa.Function]*ssa.Function{} // function -> the API entry that reaches it
-		var add func(fn, root *ssa.Function)
-		add = func(fn, root *ssa.Function) {
-			if fn == nil || fn.Pkg != pd.Pkg {
-				return
-			}
-			if _, seen := reach[fn]; seen {
-				return
-			}
-			reach[fn] = root
-			for _, b := range fn.Blocks {
-				for _, in := range b.Instrs {
-					if cc := core.CallOf(in); cc != nil {
-						add(cc.StaticCallee(), root)
-					}
-				}
-			}
-		}
-		var roots []*ssa.Function
-		for _, fn := range pd.Funcs {
-			if fn.Signature.Recv() != nil && namedTypeName(fn.Signature.Recv().Type()) == "driver.Driver" && strings.HasPrefix(fn.Name(), "Enqueue") && fn.Object() != nil && fn.Object().Exported() {
-				roots = append(roots, fn)
-			}
-		}
-		sort.Slice(roots, func(i, j int) bool { return roots[i].Name() < roots[j].Name() })
-		for _, r := range roots {
-			add(r, r)
-		}
-		for _, r := range roots {
-			st15.Instances++
-			c.MarkAnalysed(r)
-			var bad ssa.Instruction
-			var where *ssa.Function
-			for fn, root := range reach {
-				if root != r {
-					continue
-				}
-				for _, b := range fn.Blocks {
-					for _, in := range b.Instrs {
-						if cc := core.CallOf(in); cc != nil {
-							if cal := cc.StaticCallee(); cal != nil && cal.Pkg != nil && cal.Pkg.Pkg.Path() == "encoding/binary" && (cal.Name() == "Write" || cal.Name() == "Read") {
-								if bad == nil || in.Pos() < bad.Pos() {
-									bad, where = in, fn
-								}
-							}
-						}
-					}
-				}
-			}
-			st15.Ob(bad == nil)
-			if bad != nil {
-				c.ReportAt("R12.15", where, bad.Pos(), "host-data-at-enqueue:"+r.Name(), "Driver."+r.Name()+" reaches "+core.FuncName(where)+", which encodes / decodes host data with encoding/binary on the enqueuing thread: the command is built from the host buffer as it is at enqueue time, so it does not see what earlier commands of the same queue write into that buffer (MemCopyD2D of a byte count that is not a multiple of four copies zeros for its tail)")
-			}
-		}
-		st15.Sample("%d exported Enqueue* methods, %d functions reachable from them", len(roots), len(reach))
-	}
+	checkHostDataAtProcessingTime(c, pd, "R12.15")
 
 	// ---------------- R12.16 a response that was consumed counts as progress ----------------
 	st16 := c.Rule("R12.16", "the driver is woken by the arrival of a message and keeps ticking only while a tick reports progress: in its receive handlers (functions with a bool result, helpers expanded and their results followed) no `return false` is reachable after RetrieveIncoming took a message. A handler that consumes one of several responses of a command and reports no progress lets the engine run dry with the next response still queued; the command is never retired and DrainCommandQueue / LaunchKernel never return (unified multi-GPU kernels: one response per GPU)", 6)
@@ -1250,6 +1269,70 @@ func checkTraceAfterRelease(c *core.Ctx, pd *PkgInfo, rule string) {
 				}
 			}
 		}
+	}
+
+}
+
+// checkHostDataAtProcessingTime (R12.15, shared with C11 as R11.13): a copy command touches its
+// host buffer when it is processed, not when it is enqueued.
+func checkHostDataAtProcessingTime(c *core.Ctx, pd *PkgInfo, rule string) {
+	st15 := c.Rule(rule, "a copy command reads its host source and writes its host destination when it is processed at the head of its queue (simulation side), not when it is enqueued: no function that an exported Enqueue* method of the driver reaches by static calls inside the package encodes or decodes host data (encoding/binary.Write / Read). A source serialised at enqueue time misses what earlier commands of the same queue write into that host buffer (EnqueueMemCopyD2D stages its tail bytes through one: D2H into tmp, then H2D from tmp)", 3)
+	{
+		reach := map[*ssa.Function]*ssa.Function{} // function -> the API entry that reaches it
+		var add func(fn, root *ssa.Function)
+		add = func(fn, root *ssa.Function) {
+			if fn == nil || fn.Pkg != pd.Pkg {
+				return
+			}
+			if _, seen := reach[fn]; seen {
+				return
+			}
+			reach[fn] = root
+			for _, b := range fn.Blocks {
+				for _, in := range b.Instrs {
+					if cc := core.CallOf(in); cc != nil {
+						add(cc.StaticCallee(), root)
+					}
+				}
+			}
+		}
+		var roots []*ssa.Function
+		for _, fn := range pd.Funcs {
+			if fn.Signature.Recv() != nil && namedTypeName(fn.Signature.Recv().Type()) == "driver.Driver" && strings.HasPrefix(fn.Name(), "Enqueue") && fn.Object() != nil && fn.Object().Exported() {
+				roots = append(roots, fn)
+			}
+		}
+		sort.Slice(roots, func(i, j int) bool { return roots[i].Name() < roots[j].Name() })
+		for _, r := range roots {
+			add(r, r)
+		}
+		for _, r := range roots {
+			st15.Instances++
+			c.MarkAnalysed(r)
+			var bad ssa.Instruction
+			var where *ssa.Function
+			for fn, root := range reach {
+				if root != r {
+					continue
+				}
+				for _, b := range fn.Blocks {
+					for _, in := range b.Instrs {
+						if cc := core.CallOf(in); cc != nil {
+							if cal := cc.StaticCallee(); cal != nil && cal.Pkg != nil && cal.Pkg.Pkg.Path() == "encoding/binary" && (cal.Name() == "Write" || cal.Name() == "Read") {
+								if bad == nil || in.Pos() < bad.Pos() {
+									bad, where = in, fn
+								}
+							}
+						}
+					}
+				}
+			}
+			st15.Ob(bad == nil)
+			if bad != nil {
+				c.ReportAt(rule, where, bad.Pos(), "host-data-at-enqueue:"+r.Name(), "Driver."+r.Name()+" reaches "+core.FuncName(where)+", which encodes / decodes host data with encoding/binary on the enqueuing thread: the command is built from the host buffer as it is at enqueue time, so it does not see what earlier commands of the same queue write into that buffer (MemCopyD2D of a byte count that is not a multiple of four copies zeros for its tail)")
+			}
+		}
+		st15.Sample("%d exported Enqueue* methods, %d functions reachable from them", len(roots), len(reach))
 	}
 
 }
